@@ -5,3 +5,5 @@ extern crate alloc;
 
 #[cfg(kani)]
 pub mod stubs;
+#[cfg(kani)]
+mod c19;
